@@ -14,8 +14,8 @@ Fails closed: an anchor that is not recognised is emitted as a value that falsif
 """
 import ast
 
-from ._symsrc import (SRCOPS_FILE, Out, Sym, affine1, as_int, cmp_parts, exc_name, find, find_def, findall, match,
-                      read_tree, safe, text)
+from ._symsrc import (SRCOPS_FILE, Out, Sym, affine1, as_int, cmp_parts, exc_name, find, find_def, findall, func_shape,
+                      match, read_tree, safe, text)
 
 
 def _point_along_path(o, tree):
@@ -99,6 +99,11 @@ def _subdivided_by_length(o, tree):
     o.bool("samePolyline", safe(lambda: text(mi["_P"]) == text(poly), False))
     o.str("countsSrc", safe(lambda: text(counts, abbr)), "COUNTS: number of points inserted per edge")
     o.str("indicesSrc", safe(lambda: text(mi["_IDX"], [("COUNTS", counts)] + abbr)), "indices of the original vertices")
+    mx = safe(lambda: match("np.arange(self.num_v) + np.sum(np.tril(np.broadcast_to(np.concatenate(["
+                            "np.zeros(_Z, dtype=np.int64), _X[:_S] if self.is_closed else _X]), (self.num_v, self.num_v))), axis=1)",
+                            mi["_IDX"])) or {}
+    o.int("leadingZeros", safe(lambda: as_int(mx["_Z"])), "the offsets are the running sums of `[0] * z + (COUNTS[:s] if closed else COUNTS)`")
+    o.int("closedDropStop", safe(lambda: as_int(mx["_S"])))
 
 
 def _bisected(o, tree):
@@ -110,6 +115,14 @@ def _bisected(o, tree):
     o.int("bisectDimRhs", safe(lambda: as_int(c[2])))
     o.str("bisectRaises", safe(lambda: exc_name(rz[0][1])))
     o.str("bisectSrc", safe(lambda: text(s.returns()[0]) if len(s.returns()) == 1 else None), "what it returns")
+    mb = safe(lambda: match("self.with_insertions(points=self.segments[segment_indices].mean(axis=_AX), "
+                            "indices=self.e[segment_indices][:, _COL], ret_new_indices=ret_new_indices)", s.returns()[0])) or {}
+    o.int("bisectEdgeColumn", safe(lambda: as_int(mb["_COL"])), "inserted before `self.e[idx][:, col]`")
+    o.int("bisectMeanAxis", safe(lambda: as_int(mb["_AX"])), "midpoints: `.mean(axis=n)`")
+    ml = safe(lambda: match("vg.euclidean_distance(self.segments[:, _A], self.segments[:, _B])",
+                            Sym(find_def(tree, "Polyline.segment_lengths")).returns()[0])) or {}
+    o.int("lengthFromColumn", safe(lambda: as_int(ml["_A"])), "`segment_lengths`: distance between these two columns of `self.segments`")
+    o.int("lengthToColumn", safe(lambda: as_int(ml["_B"])))
     for ident, meth in (("segmentLengthsSrc", "segment_lengths"), ("totalLengthSrc", "total_length"),
                         ("polylineCentroidSrc", "path_centroid")):
         o.str(ident, safe(lambda: (lambda rs: text(rs[0]) if len(rs) == 1 else None)(Sym(find_def(tree, "Polyline." + meth)).returns())),
@@ -157,6 +170,11 @@ def _segment_functions(o, tree):
     o.blank()
     o.str("pathCentroidSrc", safe(lambda: (lambda rs: text(rs[0]) if len(rs) == 1 else None)(Sym(find_def(tree, "path_centroid")).returns())),
           "`path_centroid`")
+    mc = safe(lambda: match("np.average(np.average(segments, axis=_A1), axis=_A0, weights=vg.euclidean_distance(segments[:, _A], segments[:, _B]))",
+                            Sym(find_def(tree, "path_centroid")).returns()[0])) or {}
+    o.int("centroidWeightFromColumn", safe(lambda: as_int(mc["_A"])), "weights: distance between these two columns of `segments`")
+    o.int("centroidWeightToColumn", safe(lambda: as_int(mc["_B"])))
+    o.ints("centroidAxes", safe(lambda: [as_int(mc["_A1"]), as_int(mc["_A0"])]), "inner / outer `axis=`")
 
 
 def generate(repo):
@@ -172,4 +190,10 @@ def generate(repo):
             del o.lines[n:]
             o.notes.append("%s: %r" % (part.__name__, e))
         o.blank()
+    o.shapes("functionShapes",
+             [func_shape(t1, "Polyline." + q) for q in ("point_along_path", "subdivided_by_length", "with_segments_bisected",
+                                                         "segment_lengths", "total_length", "path_centroid")] +
+             [func_shape(t2, q) for q in ("subdivide_segment", "subdivide_segments", "path_centroid")],
+             "for every function read above: (name, decorators, parameters with defaults, statements the symbolic reader "
+             "does not interpret, other bindings of the name in its scope)")
     return [SRCOPS_FILE, o.result()]
